@@ -5,3 +5,28 @@ pub open spec fn entry_le(l: Seq<(PolicyID, Assets)>, rhs: MultiAsset, i: int, j
 pub open spec fn ma_le(l: Seq<(PolicyID, Assets)>, rhs: MultiAsset) -> bool {
     forall|i: int, j: int| 0 <= i < l.len() && 0 <= j < l[i].1.0.entries@.len() ==> entry_le(l, rhs, i, j)
 }
+/// the bundle comparison of MultiAsset::partial_cmp (`ma_le`) is the optional-bundle comparison of Value::partial_cmp (`oma_le`),
+/// an empty bundle standing for "no asset part"
+pub proof fn lemma_cmp_bridge(l: MultiAsset, r: MultiAsset)
+    ensures ma_le(l.0.entries@, r) == oma_le(Some(l), Some(r)),
+            r.0.entries@.len() == 0 ==> ma_le(l.0.entries@, r) == oma_le(Some(l), None),
+            l.0.entries@.len() == 0 ==> ma_le(l.0.entries@, r),
+            oma_le(None, Some(r)), oma_le(None, None),
+{
+    let le = l.0.entries@;
+    if ma_le(le, r) {
+        assert forall|i: int, j: int| 0 <= i < le.len() && 0 <= j < le[i].1.0.entries@.len() implies le[i].1.0.entries@[j].1.0 <= qty(Some(r), le[i].0, le[i].1.0.entries@[j].0) by { assert(entry_le(le, r, i, j)); }
+    }
+    if oma_le(Some(l), Some(r)) {
+        assert forall|i: int, j: int| 0 <= i < le.len() && 0 <= j < le[i].1.0.entries@.len() implies entry_le(le, r, i, j) by { assert(ents(Some(l)) == le); }
+    }
+    if r.0.entries@.len() == 0 {
+        assert forall|i: int, j: int| 0 <= i < le.len() && 0 <= j < le[i].1.0.entries@.len() implies amt(r, le[i].0, le[i].1.0.entries@[j].0).0 == 0 by { lemma_amt_empty(r, le[i].0, le[i].1.0.entries@[j].0); }
+        if ma_le(le, r) {
+            assert forall|i: int, j: int| 0 <= i < le.len() && 0 <= j < le[i].1.0.entries@.len() implies le[i].1.0.entries@[j].1.0 <= qty(None, le[i].0, le[i].1.0.entries@[j].0) by { assert(entry_le(le, r, i, j)); }
+        }
+        if oma_le(Some(l), None) {
+            assert forall|i: int, j: int| 0 <= i < le.len() && 0 <= j < le[i].1.0.entries@.len() implies entry_le(le, r, i, j) by { assert(ents(Some(l)) == le); }
+        }
+    }
+}
